@@ -407,8 +407,16 @@ pub fn long_suite(out: &mut Out, seed: u64, thorough: bool) {
 			let seg = total / 7 + 1;
 			let positive = *name == "roc";
 			let mut gen_x = move |t: usize| -> f64 {
+				let cycle = 28 + 3 * len as usize;
 				match (t / seg) % 7 {
-					0 | 2 | 6 => x += rr.gauss(),
+					0 | 6 => x += rr.gauss(),
+					// episodes: a short burst on a two-decimal price grid, then flat for longer than any window of this
+					// length — every episode leaves fresh rounding residue in the running sums
+					2 => {
+						if (t % seg) % cycle < 20 {
+							x = ((x + 0.5 * rr.gauss()).max(1.0) * 100.0).round() / 100.0;
+						}
+					}
 					1 => {}
 					3 => x = 1e6 * (1.0 + 0.01 * rr.gauss()),
 					4 => x = 1e-3 * (1.0 + 0.01 * rr.gauss()),
@@ -623,6 +631,26 @@ pub fn suite_w(out: &mut Out, seed: u64, thorough: bool, filter: &[String], wide
 					out.sample(format!("{} len={} class={} init={} first_inputs={:?}", name, len, class, init, &xs[..xs.len().min(6)]));
 				}
 				out.count(&format!("class:{}", class));
+				run_case(out, id, &case);
+				id += 1;
+			}
+		}
+	}
+	// cross-build runs only: every single-value method on magnitudes next to the overflow threshold (short and long, odd and
+	// even windows) — `x + x`, sums and products overflow there, and both builds must overflow alike
+	if crate::util::is_compat() {
+		for name in SCALAR_METHODS {
+			if !want(name) || *name == "roc" {
+				continue;
+			}
+			for len in [1u64, 2, 3, 4, 5, 8, 9] {
+				if len >= max {
+					continue;
+				}
+				let mut r = rng.fork(id);
+				let xs = gen::stream(&mut r, 40, "huge");
+				let case = Case { name: name.to_string(), params: vec![len.to_string()], init: vec![xs[0]], inputs: f1(&xs), state_every: 0 };
+				out.count("class:huge");
 				run_case(out, id, &case);
 				id += 1;
 			}
